@@ -1,6 +1,7 @@
 package c16
 
 import (
+	"fmt"
 	"math"
 	"math/big"
 	"strings"
@@ -125,6 +126,46 @@ func corpusEntries() []entry {
 			inc := inc
 			if v, ok := tryBuild(func() cty.Value {
 				return unk(num).Refine().NumberRangeLowerBound(pr[0], inc&1 == 0).NumberRangeUpperBound(pr[1], inc&2 == 0).NewValue()
+			}); ok {
+				add(v)
+			}
+		}
+	}
+	// --- size of the refinements blob around the decoder's limit (1024 bytes, map header included): a bound
+	// whose text has d digits takes d+6 bytes (key, array header, str16 header, flag). Every total from well
+	// below to well above the limit is produced: one bound alone / with not-null / lower or upper / whole,
+	// negative and small-magnitude numbers, and two bounds that only fit one at a time. Marshal -> Unmarshal
+	// must succeed for each (a dropped bound is a sound approximation, an error is not).
+	for d := 985; d <= 1045; d++ {
+		for _, x := range []cty.Value{p(fmt.Sprintf("1e%d", d)), p(fmt.Sprintf("-1e%d", d)), p(fmt.Sprintf("1e-%d", d)), p(fmt.Sprintf("-3e-%d", d))} {
+			x := x
+			for variant := 0; variant < 4; variant++ {
+				variant := variant
+				if v, ok := tryBuild(func() cty.Value {
+					b := unk(num).Refine()
+					if variant&1 == 1 {
+						b = b.NotNull()
+					}
+					if variant&2 == 0 {
+						return b.NumberRangeLowerBound(x, d%2 == 0).NewValue()
+					}
+					return b.NumberRangeUpperBound(x, d%2 == 1).NewValue()
+				}); ok {
+					add(v)
+				}
+			}
+		}
+	}
+	for hiDigits := 470; hiDigits <= 550; hiDigits++ {
+		lo, hi := p("-1e500"), p(fmt.Sprintf("1e%d", hiDigits))
+		for _, nn := range []bool{false, true} {
+			nn := nn
+			if v, ok := tryBuild(func() cty.Value {
+				b := unk(num).Refine()
+				if nn {
+					b = b.NotNull()
+				}
+				return b.NumberRangeLowerBound(lo, true).NumberRangeUpperBound(hi, false).NewValue()
 			}); ok {
 				add(v)
 			}
